@@ -56,7 +56,8 @@ def wf_table(rng, sep, transposed=None, kinds=None, n_row=None):
     bad = {sep, "\n", "\r"}
     if transposed is None:
         transposed = rng.random() < 0.45
-    n_col = rng.choice([0, 1, 1, 2, 2, 3, 4, 5]) if kinds is None else len(kinds)
+    n_col = (rng.choice([0, 1, 1, 2, 2, 3, 4, 5]) if rng.random() < 0.97 else rng.choice([9, 17, 33])) \
+        if kinds is None else len(kinds)
     n_row = rng.choice([0, 1, 1, 2, 3, 6]) if n_row is None else n_row
     kinds = [rng.choice(["text", "onoff", "datetime", "num", "num", "int", "f32", "i32", "u8"]) for _ in range(n_col)] \
         if kinds is None else list(kinds)
@@ -120,6 +121,8 @@ def wf_table(rng, sep, transposed=None, kinds=None, n_row=None):
                 while True:
                     s = rng.choice(["", "a", " a ", "-", "nan", "None", "1.5", "**x", ":a", "k:"]) \
                         if rng.random() < 0.4 else rand_str(rng, TEXT_ALPHA, 0, 6, bad)
+                    if rng.random() < 0.02:
+                        s = (s or "x") * rng.choice([50, 90, 300, 1500])      # a long text is a text like any other
                     if any(c in bad for c in s):
                         continue
                     s = s.rstrip("\x00")     # a text value ending in NUL is not kept by the reader (finding F3, C02)
@@ -184,6 +187,8 @@ def wf_table(rng, sep, transposed=None, kinds=None, n_row=None):
             data[nm] = np.array(v, dtype="float32")
         elif k == "datetime":
             data[nm] = pd.Series(v, dtype="datetime64[us]").to_numpy() if v else np.array([], dtype="datetime64[us]")
+            if v and all(x is pd.NaT or x.microsecond == 0 for x in v) and rng.random() < 0.5:
+                data[nm] = data[nm].astype("datetime64[s]")     # a coarser resolution holding the same instants
         else:
             data[nm] = np.array(v, dtype="float64")
     df = pd.DataFrame(data)
@@ -254,7 +259,8 @@ def sep_chars_of_render(t):
 
 
 def wf_bundle(rng, sep):
-    return [wf_table(rng, sep) for _ in range(rng.choice([0, 1, 1, 1, 2, 2, 3, 4]))]
+    # mostly short bundles; now and then more tables than any small batch
+    return [wf_table(rng, sep) for _ in range(rng.choice([0, 1, 1, 1, 2, 2, 3, 4]) if rng.random() < 0.97 else rng.choice([9, 17]))]
 
 
 def table_val(t):
